@@ -254,13 +254,15 @@ theorem rewrite_wellformed_pg_bind (f : Nat → Bytes → Bytes)
 
 open AcraModel.Wire.My in
 /-- Facts from the regenerated constants the MySQL model relies on, and agreement of the two tables of
-fixed-width types (`extractData` reads exactly the widths `NumericTypesStorageBytes` declares). -/
+fixed-width types (`extractData` reads exactly the widths `NumericTypesStorageBytes` declares), and
+presence of the bounds checks in front of every read of `extractData` (the model's `.err` branches). -/
 theorem fact_my_constants :
     Generated.Wire.myPacketHeaderSize = 4 ∧ Generated.Wire.mySequenceIDIndex = 3 ∧
     Generated.Wire.myMaxPayloadLen = 2^24 - 1 ∧
     Generated.Wire.myOkPacket = 0 ∧ Generated.Wire.myEOFPacket = 254 ∧ Generated.Wire.myErrPacket = 255 ∧
     Generated.Wire.myExtractFixed = Generated.Wire.myNumericStorageBytes ∧
-    (∀ t, t ∈ Generated.Wire.myExtractLenEnc → Generated.Wire.myExtractFixed.find? (·.1 = t) = none) := by decide
+    (∀ t, t ∈ Generated.Wire.myExtractLenEnc → Generated.Wire.myExtractFixed.find? (·.1 = t) = none) ∧
+    Generated.Wire.myExtractFixedGuarded = true ∧ Generated.Wire.myExtractLenEncGuarded = true := by decide
 
 open AcraModel.Wire.My in
 /-- **Relay identity, MySQL – partial.** A packet whose payload has 1 … 2^24-2 bytes, followed by any
